@@ -15,19 +15,21 @@ ASSUMPTIONS = [
 ]
 
 PAGES = {
-    "a.zo": "# page a\n\n- 240101#00 alpha note ID::alpha\n- 240101#01 knuth RID::knuth\n- 240101#02 dup one ID::dup\n- 240101#03 r RID::dupr\n- 240101#04 rel ID::rel_notes\n",
-    "sub/b.zo": "# page b\n\n- 240102#00 dup two ID::dup\n- 240102#01 same1 ID::same\n- 240102#02 same2 ID::same\n- 240102#03 r2 RID::dupr\n- 240102#04 relx ID::relXnotes\n- 240102#05 k RID::knuth_65\n- 240102#06 k2 RID::knuthX65\n",
+    "a.zo": "# page a\n\n- 240101#00 alpha note ID::alpha\n- 240101#01 knuth RID::knuth\n- 240101#02 dup one ID::dup\n- 240101#03 r RID::dupr\n- 240101#04 rel ID::rel_notes\n- 240101#000 late one ID::late\n",
+    "sub/b.zo": "# page b\n\n- 240102#00 dup two ID::dup\n- 240102#01 same1 ID::same\n- 240102#02 same2 ID::same\n- 240102#03 r2 RID::dupr\n- 240102#04 relx ID::relXnotes\n- 240102#05 k RID::knuth_65\n- 240102#06 k2 RID::knuthX65\n- 240102#0A5 later one RID::later\n",
     "foo.zo": "# foo\n",
     "bar.sh": "echo\n",
 }
 IDS = [("ID", "alpha", "a.zo", "240101#00"), ("RID", "knuth", "a.zo", "240101#01"), ("ID", "dup", "a.zo", "240101#02"),
        ("RID", "dupr", "a.zo", "240101#03"), ("ID", "rel_notes", "a.zo", "240101#04"), ("ID", "dup", "sub/b.zo", "240102#00"),
        ("ID", "same", "sub/b.zo", "240102#01"), ("ID", "same", "sub/b.zo", "240102#02"), ("RID", "dupr", "sub/b.zo", "240102#03"),
-       ("ID", "relXnotes", "sub/b.zo", "240102#04"), ("RID", "knuth_65", "sub/b.zo", "240102#05"), ("RID", "knuthX65", "sub/b.zo", "240102#06")]
+       ("ID", "relXnotes", "sub/b.zo", "240102#04"), ("RID", "knuth_65", "sub/b.zo", "240102#05"), ("RID", "knuthX65", "sub/b.zo", "240102#06"),
+       # notes whose ZIDs have the three-character suffixes the allocator hands out after #zz
+       ("ID", "late", "a.zo", "240101#000"), ("RID", "later", "sub/b.zo", "240102#0A5")]
 ZIDS = [(z, p) for (_, _, p, z) in IDS]
 TARGETS = ["[[foo]]", "[[foo#sec]]", "[[sub/b]]", "[[missing]]", "[[bar.sh]]", "[^loc1]", "[^X]", "[#alpha]", "[#dup]", "[#same]",
            "[#nope]", "[#rel_notes]", "[@knuth]", "[@dupr]", "[@knuth_65]", "[@none]", "[240101#02]", "240102#01", "[240199#zz]",
-           "240102#03"]
+           "240102#03", "240101#000", "[240102#0A5]", "[#late]"]
 PLAIN = ["word", "and", "see", "x", "o", "P1", "240601", "-", "note:", "(aside)", "k::v", "#tag", "@ctx", "2024-01-01", "1200"]
 PREFIXES = ["- ", "o ", "o P1 ", "x P3 240601 ", "- 240601 ", "~ ", "< P0 ", "  * ", "", "# "]
 
@@ -40,7 +42,7 @@ def decorate(rng, t):
 
 def gen_line(rng):
     pre = rng.choice(PREFIXES)
-    primary = rng.choice(["240105#0A ", "240105#0A ", ""])
+    primary = rng.choice(["240105#0A ", "240105#0A ", "", "240105#0A7 "])
     words = []
     for _ in range(rng.randint(0, 7)):
         if rng.random() < 0.45:
